@@ -760,7 +760,7 @@ impl ElementRaw {
         move_element: &Element,
         position: usize,
         model: &AutosarModel,
-        version: AutosarVersion,
+        _version: AutosarVersion,
     ) -> Result<Element, AutosarDataError> {
         // check if self (target of the move) is a sub element of new_element
         // if it is, then the move is not allowed
@@ -850,7 +850,11 @@ impl ElementRaw {
                     let refstr = format!("{dest_path}{suffix}");
                     for ref_element_weak in &ref_elements {
                         if let Some(ref_element) = ref_element_weak.upgrade() {
-                            ref_element.0.write().set_character_data(refstr.clone(), version)?;
+                            // written without a value check, as in set_item_name: the element has already been
+                            // detached from its old parent, the move must not fail any more
+                            if let Some(item) = ref_element.0.write().content.get_mut(0) {
+                                *item = ElementContent::CharacterData(CharacterData::String(refstr.clone()));
+                            }
                         }
                     }
                     model_locked
@@ -879,7 +883,7 @@ impl ElementRaw {
         position: usize,
         model: &AutosarModel,
         model_src: &AutosarModel,
-        version: AutosarVersion,
+        _version: AutosarVersion,
     ) -> Result<Element, AutosarDataError> {
         let src_path_prefix = move_element.0.read().path_unchecked()?;
         let dest_path_prefix = self.path_unchecked()?;
@@ -962,7 +966,11 @@ impl ElementRaw {
             if original_paths.contains_key(&old_ref) {
                 if let Some(suffix) = old_ref.strip_prefix(&src_path_prefix) {
                     refstr = format!("{dest_path}{suffix}");
-                    ref_element.0.write().set_character_data(refstr.clone(), version)?;
+                    // written without a value check, as in set_item_name: the element has already been
+                    // detached from its old parent, the move must not fail any more
+                    if let Some(item) = ref_element.0.write().content.get_mut(0) {
+                        *item = ElementContent::CharacterData(CharacterData::String(refstr.clone()));
+                    }
                 }
             }
             model.add_reference_origin(&refstr, ref_element.downgrade());
